@@ -225,6 +225,43 @@ func c03r2(c *Ctx) {
 			ob.OK("every flush point is the last bucket-affecting step")
 		}
 	}
+	// a constructor that applies the first block through the block step (which may commit) must have stored
+	// everything that belongs to that block before: no bucket write between the step and the next unconditional flush
+	for f := range s.constructors {
+		steps := f.CallsTo(false, s.apply.Obj, s.revert.Obj)
+		if len(steps) == 0 {
+			continue
+		}
+		g := f.Graph()
+		c.VisitGraph(f)
+		ob := c.Ob(f, "no-write-after-block-step", f.Body.Pos())
+		bad := false
+		for _, step := range steps {
+			n := g.NodeContaining(step.Pos())
+			if n == nil {
+				continue
+			}
+			var st []*cfgx.Visit
+			for _, e := range n.Succs {
+				st = append(st, cfgx.StartAfter(e, 0))
+			}
+			after := g.Reach(st, nil)
+			if _, again := after[n]; again {
+				continue // a replay loop (migration): the writes that follow belong to the next block
+			}
+			for m, v := range after {
+				for _, call := range f.NodeCalls(m) {
+					if s.writers[call.Fn] && !s.flushPoints[call.Fn] && !bad {
+						ob.Bad(c.Witness(v), "%s writes buckets at %s after the block step at %s, which may already have committed: a stop between the two reopens to a tip whose block or state was never stored", callName(call.Fn), c.P.Pos(m.Pos()), c.P.Pos(n.Pos()))
+						bad = true
+					}
+				}
+			}
+		}
+		if !bad {
+			ob.OK("the block step is the last bucket write of the initialisation")
+		}
+	}
 }
 
 func c03r3(c *Ctx) {
@@ -472,6 +509,36 @@ func checkRevertRemovesEntry(c *Ctx, s *storeRoles, putHeight *ir.Func, bestWrit
 		}
 	}
 	ob.Check(deletes, nil, "reverting a block does not delete the best-index entry of the reverted height: stale entries above the tip make a subscriber on the old branch look as if it were on the best chain")
+	if deletes {
+		stateStepOnEveryPath(c, f, "revert-state-on-every-path", func(fn *types.Func) bool {
+			return fn == putHeight.Obj || (bestWriters[fn] && reaches(c.P, fn, rawDel, 2))
+		}, "reverting a block can return at %s without deleting the best-index entry and lowering Height: after a rolled-back or completed reorg the index still names blocks above the tip")
+	}
+}
+
+// stateStepOnEveryPath: every return of the store step f is preceded, on every path, by a call of each state writer
+// selected by want (the Height writer and the best-index writer are distinct callees; both must be passed).
+func stateStepOnEveryPath(c *Ctx, f *ir.Func, role string, want func(*types.Func) bool, msg string) {
+	g := f.Graph()
+	ob := c.Ob(f, role, f.Body.Pos())
+	targets := map[*types.Func]bool{}
+	for _, call := range f.Calls(false) {
+		if call.Fn != nil && want(call.Fn) {
+			targets[call.Fn] = true
+		}
+	}
+	for t := range targets {
+		t := t
+		stop := func(n *cfgx.Node) bool { _, ok := f.NodeCallsTo(n, t); return ok }
+		reach := g.Reach([]*cfgx.Visit{cfgx.StartAt(g.Entry, 0)}, stop)
+		for _, ret := range g.Returns() {
+			if v, ok := reach[ret]; ok {
+				ob.Bad(c.Witness(v), msg+" (%s not called)", c.P.Pos(ret.Pos()), t.Name())
+				return
+			}
+		}
+	}
+	ob.Check(len(targets) > 0, nil, "no state writer is called")
 }
 
 func c03r5(c *Ctx) {
